@@ -163,7 +163,7 @@ class Ctx:
                     ctx.on_write_soon(self, data)
                     return HTTPChannel.write_soon(self, data)
 
-            for n in RACY:
+            for n in scn.get("racy", RACY):
                 setattr(Chan, n, _mkprop(n, HTTPChannel))
 
             class Srv(TcpWSGIServer):
